@@ -1106,6 +1106,167 @@ def array_case(args):
     return dict(k=k, cls=cls, layout=layout, terms=terms, findings=findings, ncalls=ncalls)
 
 
+# ---- periodic terms, query points outside the knot range, column-contiguous layouts ---------------------
+CP_MIXES = ['cp1', 'cp1-uk', 'cp+s', 'cpuk+l', 'te-cp', 'te-cpuk+s']
+CP_LAYOUTS = ['c64', 'f64', 'tview', 'colview', 'rowview', '1d', 'readonly-f']
+CP_CLASSES = ['linear', 'poisson', 'logistic', 'gamma']
+
+
+def cp_layout(layout, a):
+    """one array in the given memory layout; returns (array to pass, buffer whose bytes are compared)"""
+    a = np.asarray(a, dtype=np.float64)
+    if a.ndim == 1:
+        if layout in ('colview', 'rowview'):
+            big = np.full((a.shape[0], 2), -7.0)
+            big[:, 0] = a
+            return big[:, 0], big
+        b = a.copy()
+        if layout == 'readonly-f':
+            b.setflags(write=False)
+        return b, b
+    if layout == 'c64':
+        b = np.array(a, order='C'); return b, b
+    if layout == 'f64':
+        b = np.array(a, order='F'); return b, b
+    if layout == 'readonly-f':
+        b = np.array(a, order='F'); b.setflags(write=False); return b, b
+    if layout == 'tview':        # what DataFrame.values / X.T of a C array look like: every column contiguous
+        base = np.ascontiguousarray(a.T).copy()
+        return base.T, base
+    if layout == 'colview':      # columns 1..m of a wider C-ordered table
+        big = np.full((a.shape[0], a.shape[1] + 2), -7.0)
+        big[:, 1:1 + a.shape[1]] = a
+        return big[:, 1:1 + a.shape[1]], big
+    if layout == 'rowview':
+        big = np.full((2 * a.shape[0], a.shape[1]), -7.0)
+        big[::2] = a
+        return big[::2], big
+    if layout == '1d':           # single feature handed over as a vector (make_2d expands it)
+        b = a[:, 0].copy(); return b, b
+    raise ValueError(layout)
+
+
+def array_cp_case(args):
+    """periodic spline terms (also as tensor marginals, also with user knots narrower than the data): the caller's
+    arrays, in column-contiguous and other layouts, with query values far outside the knot range, must be bit-identical
+    after every public call; the arrays are rebuilt from saved masters before every call"""
+    seed, k, cls, mix, layout = args
+    pygam = common.import_pygam()
+    silence_progress()
+    r = np.random.RandomState(seed * 977 + k)
+    np.random.seed((seed * 31337 + k) % (2 ** 31))
+    n, nq = 70, 41
+    single = mix in ('cp1', 'cp1-uk')
+    m_feats = 1 if single else 2
+    if layout == '1d' and not single:
+        layout = 'f64'
+    lo, hi = 0.0, 6.0
+    x0 = r.uniform(lo, hi, n); x0[:2] = [lo, hi]
+    x1 = r.uniform(-1.0, 1.0, n)
+    Xtr = x0[:, None] if single else np.c_[x0, x1]
+    eta = 0.5 * np.sin(2 * np.pi * x0 / (hi - lo)) + (0 if single else 0.3 * x1)
+    ykey = YKEY[cls]
+    gen = dict(real=lambda e_: e_ + 0.2 * r.randn(len(e_)),
+               bin=lambda e_: (r.uniform(size=len(e_)) < 1 / (1 + np.exp(-e_))).astype(float),
+               count=lambda e_: r.poisson(np.exp(e_) * 2).astype(float),
+               pos=lambda e_: np.exp(e_ + 0.2 * r.randn(len(e_))))[ykey]
+    ytr = gen(eta)
+    if ykey == 'bin':
+        ytr[:2] = [0, 1]
+    wtr = r.uniform(0.5, 2.0, n)
+    etr = r.uniform(0.5, 3.0, n) if cls == 'poisson' else None
+    # query points: several periods to the left and to the right of the knot range
+    q0 = np.r_[np.linspace(lo - 3.3 * (hi - lo), hi + 4.1 * (hi - lo), nq - 4), [lo, hi, lo - 1e-9, hi + 1e-9]]
+    q1 = r.uniform(-1.0, 1.0, nq)
+    Xq = q0[:, None] if single else np.c_[q0, q1]
+    yq = gen(0.5 * np.sin(2 * np.pi * q0 / (hi - lo)))
+    if ykey == 'bin':
+        yq[:2] = [0, 1]
+    wq = r.uniform(0.5, 2.0, nq)
+    eq = r.uniform(0.5, 3.0, nq) if cls == 'poisson' else None
+    narrow = [1.5, 4.0]       # user knots narrower than the training data: fit itself has to wrap
+    s, l, te = pygam.s, pygam.l, pygam.te
+
+    def terms():
+        return {'cp1': lambda: s(0, basis='cp', n_splines=8),
+                'cp1-uk': lambda: s(0, basis='cp', n_splines=7, edge_knots=narrow),
+                'cp+s': lambda: s(0, basis='cp', n_splines=8) + s(1, n_splines=5),
+                'cpuk+l': lambda: l(1) + s(0, basis='cp', n_splines=7, edge_knots=narrow),
+                'te-cp': lambda: te(0, 1, basis=['cp', 'ps'], n_splines=[5, 4]),
+                'te-cpuk+s': lambda: te(s(0, basis='cp', n_splines=5, edge_knots=narrow), s(1, n_splines=4)) + s(1, n_splines=5)}[mix]()
+
+    def mk():
+        kw = dict(terms=terms(), max_iter=40)
+        return {'linear': pygam.LinearGAM, 'poisson': pygam.PoissonGAM, 'logistic': pygam.LogisticGAM, 'gamma': pygam.GammaGAM}[cls](**kw)
+
+    masters = dict(Xtr=Xtr, ytr=ytr, wtr=wtr, etr=etr, Xq=Xq, yq=yq, wq=wq, eq=eq)
+    findings = []
+    ncalls = 0
+
+    def call(name, fn):
+        """fn(A) with A = freshly laid out copies of the masters; compares every buffer byte for byte afterwards"""
+        nonlocal ncalls
+        A, bufs = {}, {}
+        for key, v in masters.items():
+            if v is None:
+                A[key] = None
+                continue
+            A[key], bufs[key] = cp_layout(layout, v)
+        saved = {key: b.tobytes() for key, b in bufs.items()}
+        exc = None
+        try:
+            with quiet():
+                res = fn(A)
+        except Exception as ex:  # noqa
+            exc, res = ex, None
+        ncalls += 1
+        changed = [key for key, b in bufs.items() if b.tobytes() != saved[key]]
+        changed += [key + ' (values)' for key, v in masters.items() if v is not None and key not in changed
+                    and not np.array_equal(np.asarray(A[key]).reshape(np.asarray(v).shape) if layout != '1d' or key not in ('Xtr', 'Xq') else np.asarray(A[key])[:, None], v)]
+        if changed:
+            findings.append(dict(kind='array-modified', call=name, which=changed, cls=cls, mix=mix, layout=layout))
+        if exc is not None:
+            findings.append(dict(kind='call-raised', call=name, exc=type(exc).__name__, msg=str(exc)[:200], cls=cls, mix=mix, layout=layout))
+        return res
+
+    fitkw = (lambda A: dict(weights=A['wtr'], exposure=A['etr'])) if cls == 'poisson' else (lambda A: dict(weights=A['wtr']))
+    state = {}
+
+    def do_fit(A):
+        state['m'] = mk().fit(A['Xtr'], A['ytr'], **fitkw(A))
+    call('fit', do_fit)
+    m = state.get('m')
+    if m is None or not hasattr(m, 'coef_'):
+        return dict(k=k, cls=cls, mix=mix, layout=layout, findings=findings, ncalls=ncalls)
+    call('fit (refit)', lambda A: m.fit(A['Xtr'], A['ytr'], **fitkw(A)))
+    if cls == 'poisson':
+        call('predict', lambda A: m.predict(A['Xq'], exposure=A['eq']))
+        call('loglikelihood', lambda A: m.loglikelihood(A['Xq'], A['yq'], exposure=A['eq'], weights=A['wq']))
+    else:
+        call('predict', lambda A: m.predict(A['Xq']))
+        call('loglikelihood', lambda A: m.loglikelihood(A['Xq'], A['yq'], weights=A['wq']))
+    call('predict_mu', lambda A: m.predict_mu(A['Xq']))
+    if cls == 'logistic':
+        call('predict_proba', lambda A: m.predict_proba(A['Xq']))
+        call('accuracy', lambda A: m.accuracy(A['Xq'], A['yq']))
+        call('score', lambda A: m.score(A['Xq'], A['yq']))
+    else:
+        call('score', lambda A: m.score(A['Xq'], A['yq'], weights=A['wq']))
+    call('confidence_intervals', lambda A: m.confidence_intervals(A['Xq'], width=0.9))
+    if cls == 'linear':
+        call('prediction_intervals', lambda A: m.prediction_intervals(A['Xq'], width=0.9))
+    for ti in range(len([t for t in m.terms if not t.isintercept])):
+        call('partial_dependence term %d' % ti, lambda A, ti=ti: m.partial_dependence(term=ti, X=A['Xq'], width=0.9))
+    call('deviance_residuals', lambda A: m.deviance_residuals(A['Xq'], A['yq'], weights=A['wq'], scaled=True))
+    call('gridsearch keep_best=False', lambda A: m.gridsearch(A['Xtr'], A['ytr'], lam=[0.1, 10.0], keep_best=False, progress=False, **fitkw(A)))
+    call('gridsearch (unfitted)', lambda A: mk().gridsearch(A['Xtr'], A['ytr'], lam=[0.1, 10.0], progress=False, **fitkw(A)))
+    call('sample', lambda A: m.sample(A['Xtr'], A['ytr'], quantity='mu', sample_at_X=A['Xq'], n_draws=3, n_bootstraps=1, weights=A['wtr']))
+    # fit on the query-like data themselves (values far outside user knots)
+    if 'uk' in mix:
+        call('fit (data far outside the user knots)', lambda A: mk().fit(A['Xq'], A['yq'], weights=A['wq']))
+    return dict(k=k, cls=cls, mix=mix, layout=layout, findings=findings, ncalls=ncalls)
+
+
 def run_arrays(ctx, pool):
     st = 'arrays.immutable'
     ctx.stream(st, 'harness-only (NumPy aliasing is outside the model): X / y / weights / exposure bit-identical (bytes, dtype, shape, strides, flags) before / after every public call')
@@ -1230,6 +1391,43 @@ def rowwise_case(args):
     return dict(k=k, cls=cls, terms=terms_name, findings=findings, nchecks=nchecks, exact=exact)
 
 
+def run_arrays_cp(ctx, pool):
+    st = 'arrays.immutable'
+    combos = [(mix, lay) for mix in CP_MIXES for lay in CP_LAYOUTS if not (lay == '1d' and mix not in ('cp1', 'cp1-uk'))]
+    rng = ctx.subrng('arrays-cp')
+    reps = 1 if ctx.tier == 'quick' else 4
+    jobs = []
+    for rep in range(reps):
+        for i, (mix, lay) in enumerate(combos):
+            # quick: the full product mix x layout, classes rotating (linear and poisson-with-exposure most often)
+            cls = (['linear', 'poisson', 'linear', 'logistic', 'poisson', 'gamma'])[(i + rep + ctx.seed) % 6] if ctx.tier == 'quick' else rng.choice(CP_CLASSES)
+            jobs.append((ctx.seed, 1000 * rep + i, cls, mix, lay))
+    recs = pool.map(array_cp_case, jobs, chunksize=1) if pool is not None else [array_cp_case(j) for j in jobs]
+    for rec in recs:
+        ctx.case(st, dict(cls=rec['cls'], mix=rec['mix'], layout=rec['layout'], k=rec['k'] if ctx.tier != 'quick' else 0), nontrivial=True,
+                 sample=dict(cls=rec['cls'], mix=rec['mix'], layout=rec['layout']))
+        ctx.count('array layout (periodic cases)', rec['layout'])
+        ctx.count('array term mix (periodic cases)', rec['mix'])
+        ctx.count('array calls', 'n', rec['ncalls'])
+        for f in rec['findings']:
+            case = dict(kind='arrays-cp', k=rec['k'], seed=ctx.seed, cls=rec['cls'], mix=rec['mix'], layout=rec['layout'], call=f['call'])
+            if f['kind'] == 'array-modified':
+                rec2 = array_cp_case((ctx.seed, rec['k'], rec['cls'], rec['mix'], rec['layout']))
+                if any(g['kind'] == 'array-modified' and g['call'] == f['call'] for g in rec2['findings']):
+                    ctx.fail(st, dict(kind='array-modified', call=f['call'].split(' term')[0]), case, observed=f,
+                             expected='caller arrays unchanged', oracle='every buffer handed to the call is byte-for-byte what it was (arrays rebuilt from saved masters before each call)')
+            else:
+                ref = array_cp_case((ctx.seed, rec['k'], rec['cls'], rec['mix'], 'c64'))
+                if not any(g['kind'] == 'call-raised' and g['call'] == f['call'] for g in ref['findings']):
+                    if rec['layout'] == 'readonly-f' and 'read-only' in f.get('msg', ''):
+                        ctx.fail(st, dict(kind='write-to-readonly-input', call=f['call'].split(' term')[0]), case, observed=f,
+                                 expected='no write into caller arrays', oracle='a call that succeeds on a writable array must not attempt to write a read-only one')
+                    else:
+                        ctx.count('layout-dependent exception (not an aliasing finding)', '%s %s %s %s: %s' % (rec['cls'], rec['mix'], rec['layout'], f['call'], f.get('exc')))
+                else:
+                    ctx.count('call raises also for float64 C arrays', '%s %s %s: %s' % (rec['cls'], rec['mix'], f['call'], f.get('exc')))
+
+
 def run_rowwise(ctx, pool):
     st = 'predict.rowwise'
     ctx.stream(st, 'harness-only: f(X[I]) == f(X)[I] (exact or 1e-12) for predict / predict_mu / predict_proba / intervals / partial dependence / residuals, I = subset, permutation, repetition, single row')
@@ -1276,6 +1474,7 @@ def run(ctx):
     try:
         run_histories(ctx, pygam, pool)
         run_arrays(ctx, pool)
+        run_arrays_cp(ctx, pool)
         run_rowwise(ctx, pool)
     finally:
         if pool is not None:
